@@ -84,3 +84,14 @@ Theorem minimize_min_bounded_grid_last :
   exists K, minimize rsg pick_last (grid_fun fm) hints33 = Some K /\
             min_prime_cover rsg (grid_fun fm) hints33 K.
 Proof. exact (allg_correct pick_last allg_last). Qed.
+
+(* regression: the unrepaired cover.minimize (finding F13) fails on this
+   function with pick = first element: the greedy cover (5 boxes) meets the
+   lower bound 2 essential + 3 independent, the top-level traversal is
+   pruned, and line 85 raises NameError.  (With dd's pick the real code fails
+   on the truth tables 32201, ... see corpus/C09.) *)
+Example minimize_unrepaired_fails :
+  minimize_unrepaired rs4 pick_first (fun_of_mask 32453) care_true = None /\
+  exists K, minimize rs4 pick_first (fun_of_mask 32453) care_true = Some K /\
+            length K = 5%nat.
+Proof. split; [vm_compute; reflexivity|]. eexists. split; vm_compute; reflexivity. Qed.
